@@ -177,6 +177,21 @@ class Models:
         if name == 'distance':
             a = A(0); b = A(1)
             return self.iter_arith(st, '-', b, a)
+        if name in ('next', 'prev') and isinstance(A(0), Iter):
+            k = A(1) if len(args) > 1 else z3.IntVal(1)
+            return self.iter_arith(st, '+' if name == 'next' else '-', A(0), k)
+        if name == 'iota' and isinstance(A(0), Iter) and A(0).cty.kind == 'vector' and A(0).cty.args[0].kind == 'int':
+            # std::iota(first, last, v): element k of the range becomes v + (k - first)
+            b = A(0); en = A(1); v0 = A(2)
+            key = e.vec_data_key(b.cty.args[0])
+            arr = e.harr(st, key, None)
+            old = z3.Select(arr, b.vref)
+            new = e.fresh(key + '!iota', old.sort())
+            st.pc.append(QForall(lambda k: z3.Select(new, k) == z3.If(z3.And(k >= b.idx, k < en.idx), v0 + (k - b.idx), z3.Select(old, k)), 1, 'std::iota', [new]))
+            st.heap[key] = z3.Store(arr, b.vref, new)
+            return None
+        if name == 'back_inserter':
+            return Rec('back_inserter', {'dst': e.ev(args[0], st, fr)})
         if name in ('make_pair',):
             return Rec('pair', {'first': A(0), 'second': A(1)})
         if name in ('printf', 'puts', 'fflush'):
@@ -351,6 +366,10 @@ class Models:
         if c is None or e.ast.body_of(c) is None:
             if args: raise Unsupported('constructor %s of %s has no body' % (ctor_t, t.name))
             return obj
+        contract = e.use_contracts.get(t.name + '::' + t.name)
+        if contract is not None and contract.applies(c, e):
+            contract.apply_at_call(e, c, obj, args, st, fr, n)
+            return obj
         env2 = {}
         e.bind_args(e.ast.params_of(c), args, st, fr, env2)
         e.run_inlined(c, t.name + '::' + t.name, obj, env2, st, fr, n)
@@ -403,6 +422,8 @@ class Models:
         if t.kind in ('vector', 'list', 'string'):
             e.hwrite(st, 'vec.len', obj.ref, z3.IntVal(0))
             return
+        if self.is_scalar_set(obj):
+            self.sset_init(st, obj); return
         if t.kind == 'set':
             self.set_clear(st, obj); return
         if t.kind == 'map':
@@ -433,7 +454,8 @@ class Models:
             if z3.is_int(a0):
                 # vector(n) / vector(n, value)
                 e.hwrite(st, 'vec.len', obj.ref, a0)
-                if len(args) >= 2 and e.is_value_type(t.args[0]):
+                real_args = [a_ for a_ in args if not (a_.get('kind') == 'CXXDefaultArgExpr')]
+                if len(real_args) >= 2 and e.is_value_type(t.args[0]):
                     v = e.rv(args[1], st, fr)
                     self.fill(st, obj, v)
                 elif e.is_value_type(t.args[0]):
@@ -479,12 +501,22 @@ class Models:
                 return
             srclen = e.vec_len(st, src.ref)
             if z3.is_true(z3.simplify(srclen == 0)): return
+            elem = e.uf('elem', I, I, I); ev = e.uf('elem_v', I, I)
+            d_, s_ = dst.ref, src.ref
+            if ety.kind == 'vector' and ety.args[0].is_scalar():
+                # vector<vector<scalar>>: the inner vectors are copied element-wise (length and data arrays)
+                dk = e.vec_data_key(ety.args[0])
+                for key, srt in (('vec.len', I), (dk, z3.ArraySort(I, e.sort_of(ety.args[0])))):
+                    A = e.harr(st, key, z3.ArraySort(I, srt))
+                    A2 = e.fresh(key + '!cp', A.sort())
+                    st.pc.append(QForall(lambda k, A=A, A2=A2: z3.And(z3.Select(A2, elem(d_, k)) == z3.Select(A, elem(s_, k)), ev(elem(d_, k)) == d_), 1, 'vector copy: element-wise', [A2]))
+                    st.pc.append(QForall(lambda r, A=A, A2=A2: z3.Implies(ev(r) != d_, z3.Select(A2, r) == z3.Select(A, r)), 1, 'vector copy: other objects unchanged', [A2]))
+                    st.heap[key] = A2
+                return
             if ety.kind != 'record': raise Unsupported('copy of a vector of %r' % (ety,))
             # element-wise copy of heap-class elements: for every leaf field array A, A'[elem(dst,k)] = A[elem(src,k)], rest unchanged
             leaves, subs = e.object_leaf_keys(ety)
             if subs: raise Unsupported('copy of a vector whose elements contain containers (%r)' % (ety,))
-            elem = e.uf('elem', I, I, I); ev = e.uf('elem_v', I, I)
-            d_, s_ = dst.ref, src.ref
             for key, lt in leaves:
                 A = e.harr(st, key, z3.ArraySort(I, e.sort_of(lt)))
                 A2 = e.fresh(key + '!cp', A.sort())
@@ -604,6 +636,37 @@ class Models:
         st.assign_from(normal[0])
         return st.env[acc_key]
 
+    def fn_all_of(self, st, rd, args, n, fr):
+        """std::all_of / any_of / none_of over a vector range with a side-effect-free predicate: the predicate is evaluated on an
+        arbitrary element k of the range (its safety obligations hold for every element); the result r satisfies
+        all_of: r -> pred(k), any_of: !r -> !pred(k), none_of: r -> !pred(k) for that arbitrary k (one instance of the universal fact)"""
+        e = self.e
+        name = rd.get('name')
+        b = e.rv(args[0], st, fr); en = e.rv(args[1], st, fr); pred = e.rv(args[2], st, fr)
+        if not (isinstance(b, Iter) and isinstance(en, Iter) and b.cty.kind == 'vector' and isinstance(pred, Closure)):
+            raise Unsupported('std::%s form at %s' % (name, e.where(n, fr)))
+        k = e.fresh(name + '.k', I)
+        r = e.fresh(name + '.result', B)
+        s2 = st.clone()
+        s2.pc.append(z3.And(k >= b.idx, k < en.idx))
+        ety = b.cty.args[0]
+        arg = ElemLV(b.vref, k, ety) if e.is_value_type(ety) else e.vec_read(s2, b.vref, k, ety)
+        pv = e.call_closure_values(pred, [arg], s2, fr, n)
+        if isinstance(pv, LVS) and not isinstance(pv, ObjLV): pv = e.load(s2, pv)
+        pv = e.as_bool(pv)
+        inrange = z3.And(k >= b.idx, k < en.idx)
+        for key, arr in s2.heap.items():
+            o = st.heap.get(key)
+            if o is not None and not (o is arr or o.eq(arr)) and not key.startswith('vec.epoch'):
+                raise Unsupported('std::%s with a predicate that writes %s at %s' % (name, key, e.where(n, fr)))
+        e.absorb_pure(st, s2, inrange)
+        fact = {'all_of': z3.Implies(r, pv), 'any_of': z3.Implies(z3.Not(r), z3.Not(pv)), 'none_of': z3.Implies(r, z3.Not(pv))}[name]
+        st.pc.append(z3.Implies(inrange, fact))
+        self.used('std::all_of/any_of/none_of: result related to the predicate on one arbitrary element of the range')
+        return r
+    fn_any_of = fn_all_of
+    fn_none_of = fn_all_of
+
     def fn_swap(self, st, rd, args, n, fr):
         e = self.e
         a = e.lv(args[0], st, fr); b = e.lv(args[1], st, fr)
@@ -642,6 +705,28 @@ class Models:
             st.heap['flist.copied_from'] = z3.Store(log, dst.ref, z3.Store(inner, src, z3.Select(inner, src) + 1))
             st.ghost['copy_log'] = st.ghost.get('copy_log', GuardedLog()).add((dst.ref, src))
             return out
+        if isinstance(out, Rec) and out.t == 'back_inserter' and isinstance(b, Iter) and b.cty.kind == 'vector' and isinstance(en, Iter):
+            # std::copy(first, last, back_inserter(dst)) over random-access iterators: appends max(0, last-first) elements;
+            # every element of [first, last) is read, so a non-empty range must lie inside the source vector
+            dst = out.f['dst']; src = b.vref
+            ety = b.cty.args[0]
+            if not (isinstance(dst, ObjLV) and dst.ty.kind == 'vector' and ety.is_scalar() and dst.ty.args[0].is_scalar()):
+                raise Unsupported('std::copy into back_inserter of %r at %s' % (dst, e.where(n, fr)))
+            cnt = en.idx - b.idx
+            if e.safety_on('bounds'):
+                e.oblige(st, 'safety:copy-source-range-inside-the-vector', z3.Implies(cnt > 0, z3.And(en.vref == src, b.idx >= 0, en.idx <= e.vec_len(st, src))), where=e.where(n, fr))
+            skey = e.vec_data_key(ety); dkey = e.vec_data_key(dst.ty.args[0])
+            sarr = z3.Select(e.harr(st, skey, None), src)
+            darr_all = e.harr(st, dkey, None)
+            oldd = z3.Select(darr_all, dst.ref)
+            oldlen = e.vec_len(st, dst.ref)
+            newd = e.fresh(dkey + '!copied', oldd.sort())
+            conv = (lambda x: z3.ToReal(x)) if (oldd.sort().range() == R and sarr.sort().range() == I) else (lambda x: x)
+            st.pc.append(QForall(lambda k: z3.Select(newd, k) == z3.If(k < oldlen, z3.Select(oldd, k), conv(z3.Select(sarr, b.idx + k - oldlen))), 1, 'std::copy appends the source range', [newd]))
+            st.heap[dkey] = z3.Store(darr_all, dst.ref, newd)
+            e.hwrite(st, 'vec.len', dst.ref, oldlen + z3.If(cnt > 0, cnt, 0))
+            self.bump_epoch(st, dst.ref)
+            return out
         raise Unsupported('std::copy form at %s' % e.where(n, fr))
 
     # std::set<edge>: finite map keyed by the ordered node pair (n1 < n2); DESIGN A.5
@@ -658,7 +743,92 @@ class Models:
         st.heap['set.present'] = z3.Store(st.heap['set.present'], obj.ref, z3.K(I, z3.K(I, z3.BoolVal(False))))
         e.hwrite(st, 'set.size', obj.ref, z3.IntVal(0))
 
-    def m_set_clear(self, st, obj, bt, args, n, fr): self.set_clear(st, obj)
+    def m_set_clear(self, st, obj, bt, args, n, fr):
+        if self.is_scalar_set(obj): return self.sset_init(st, obj)
+        self.set_clear(st, obj)
+
+    # std::set<scalar> / std::map<scalar, scalar>: membership is a boolean array of the key; a map keeps its values in the
+    # element store of the value type, indexed by the key (so map[k] is an ordinary element l-value)
+    def is_scalar_set(self, obj):
+        return isinstance(obj, ObjLV) and obj.ty.kind in ('set', 'map') and obj.ty.args[0].is_scalar() and (obj.ty.kind == 'set' or obj.ty.args[1].is_scalar())
+
+    def sset_member(self, st, ref):
+        return z3.Select(self.e.harr(st, 'sset.member', z3.ArraySort(I, z3.ArraySort(I, B))), ref)
+
+    def sset_init(self, st, obj):
+        e = self.e
+        arr = e.harr(st, 'sset.member', z3.ArraySort(I, z3.ArraySort(I, B)))
+        st.heap['sset.member'] = z3.Store(arr, obj.ref, z3.K(I, z3.BoolVal(False)))
+        e.hwrite(st, 'set.size', obj.ref, z3.IntVal(0))
+
+    def sset_add(self, st, obj, key):
+        e = self.e
+        arr = e.harr(st, 'sset.member', z3.ArraySort(I, z3.ArraySort(I, B)))
+        mem = z3.Select(arr, obj.ref)
+        had = z3.Select(mem, key)
+        st.heap['sset.member'] = z3.Store(arr, obj.ref, z3.Store(mem, key, z3.BoolVal(True)))
+        sz = e.hread(st, 'set.size', obj.ref, I)
+        e.hwrite(st, 'set.size', obj.ref, z3.If(had, sz, sz + 1))
+        return had
+
+    def m_set_insert(self, st, obj, bt, args, n, fr):
+        e = self.e
+        if not self.is_scalar_set(obj): raise Unsupported('set::insert on %r at %s' % (obj, e.where(n, fr)))
+        if len(args) == 2:
+            b = e.rv(args[0], st, fr); en = e.rv(args[1], st, fr)
+            if not (isinstance(b, Iter) and isinstance(en, Iter) and b.cty.kind == 'vector' and b.cty.args[0].is_scalar()):
+                raise Unsupported('set::insert(range) form at %s' % e.where(n, fr))
+            # insert(first, last): every element of [first, last) is read (in-bounds obligation) and becomes a member;
+            # old members stay; the size grows by at most the length of the range
+            cnt = en.idx - b.idx
+            if e.safety_on('bounds'):
+                e.oblige(st, 'safety:insert-source-range-inside-the-vector', z3.Implies(cnt > 0, z3.And(en.vref == b.vref, b.idx >= 0, en.idx <= e.vec_len(st, b.vref))), where=e.where(n, fr))
+            arr = e.harr(st, 'sset.member', z3.ArraySort(I, z3.ArraySort(I, B)))
+            old = z3.Select(arr, obj.ref)
+            new = e.fresh('sset.member!ins', old.sort())
+            src = z3.Select(e.harr(st, e.vec_data_key(b.cty.args[0]), None), b.vref)
+            st.pc.append(QForall(lambda x: z3.Implies(z3.Select(old, x), z3.Select(new, x)), 1, 'insert keeps the members', [new]))
+            st.pc.append(QForall(lambda k: z3.Implies(z3.And(k >= b.idx, k < en.idx), z3.Select(new, z3.Select(src, k))), 1, 'the inserted range becomes members', [new]))
+            st.heap['sset.member'] = z3.Store(arr, obj.ref, new)
+            sz = e.hread(st, 'set.size', obj.ref, I)
+            nsz = e.fresh('set.size!ins', I)
+            st.pc.append(z3.And(nsz >= sz, nsz <= sz + z3.If(cnt > 0, cnt, 0)))
+            e.hwrite(st, 'set.size', obj.ref, nsz)
+            self.used('std::set<scalar>::insert(first,last): members grow by the values of the range; no other property of the result is used')
+            return None
+        v = e.rv(args[0], st, fr)
+        if obj.ty.kind == 'map':
+            if not (isinstance(v, Rec) and 'first' in v.f): raise Unsupported('map::insert form at %s' % e.where(n, fr))
+            k = e.raw(v.f['first']); val = v.f['second']
+            had = z3.Select(self.sset_member(st, obj.ref), k)
+            oldv = e.vec_read(st, obj.ref, k, obj.ty.args[1])
+            self.sset_add(st, obj, k)
+            e.vec_write(st, obj.ref, k, obj.ty.args[1], z3.If(had, oldv, val))     # insert does not overwrite
+            return Opaque('map::insert result')
+        self.sset_add(st, obj, e.raw(v))
+        return Opaque('set::insert result')
+
+    m_map_insert = m_set_insert
+    m_map_clear = m_set_clear
+
+    def m_map_index(self, st, obj, bt, args, n, fr):
+        e = self.e
+        if not self.is_scalar_set(obj): raise Unsupported('map::operator[] on %r at %s' % (obj, e.where(n, fr)))
+        k = e.raw(e.rv(args[0], st, fr))
+        vty = obj.ty.args[1]
+        had = z3.Select(self.sset_member(st, obj.ref), k)
+        oldv = e.vec_read(st, obj.ref, k, vty)
+        self.sset_add(st, obj, k)
+        e.vec_write(st, obj.ref, k, vty, z3.If(had, oldv, e.zero_value(vty)))      # a missing key is value-initialised
+        return ElemLV(obj.ref, k, vty)
+
+    def m_set_count(self, st, obj, bt, args, n, fr):
+        e = self.e
+        if not self.is_scalar_set(obj): raise Unsupported('set::count on %r' % (obj,))
+        k = e.raw(e.rv(args[0], st, fr))
+        return z3.If(z3.Select(self.sset_member(st, obj.ref), k), z3.IntVal(1), z3.IntVal(0))
+    m_map_count = m_set_count
+    def m_map_size(self, st, obj, bt, args, n, fr): return self.m_set_size(st, obj, bt, args, n, fr)
     def m_set_size(self, st, obj, bt, args, n, fr):
         sz = self.e.hread(st, 'set.size', obj.ref, I)
         st.pc.append(sz >= 0)
@@ -738,6 +908,8 @@ class Models:
                 ety = base.ty.args[0]
                 if e.is_value_type(ety): return ElemLV(base.ref, idx, ety)
                 return ObjLV(e.elem_ref(st, base.ref, idx), ety)
+            if isinstance(base, ObjLV) and base.ty.kind == 'map':
+                return self.m_map_index(st, base, base.ty, [args[1]], n, fr)
             return self.subscript(st, base, idx, n, fr)
         if name == 'operator=':
             lv = e.ev(args[0], st, fr)
@@ -1057,7 +1229,37 @@ class Models:
             return e.run_loop(n, st, fr, None, None, body, bind=bind)
         if isinstance(val, ObjLV) and val.ty.kind == 'vector':
             return self.range_for_vector(n, st, fr, val, var, vt, body)
+        if self.is_scalar_set(val) and val.ty.kind == 'set':
+            return self.range_for_sset(n, st, fr, val, var, vt, body)
         raise Unsupported('range-for over %r at %s' % (val, e.where(n, fr)))
+
+    def range_for_sset(self, n, st, fr, sset, var, vt, body):
+        """range-for over a std::set<scalar>: needs a loop contract; the loop variable of an arbitrary iteration is some member
+        of the set (of the element type's range); the number of iterations is the size of the set"""
+        e = self.e
+        ordn = e.loop_ordinal(n, fr)
+        lc = e.specs.loop_contract(fr.qname, ordn) if e.specs else None
+        if lc is None:
+            raise Unsupported('range-for #%s over a set in %s has no loop contract (at %s)' % (ordn, fr.qname, e.where(n, fr)))
+        idx_key = 'rangeidx!%s' % n['id']
+        st.env[idx_key] = z3.IntVal(0)
+        ety = sset.ty.args[0]
+        size0 = e.hread(st, 'set.size', sset.ref, I)
+
+        def bind(s):
+            x = e.fresh('member', e.sort_of(ety))
+            if ety.kind == 'int':
+                lo, hi = TY.INT_RANGES[ety.name]; s.pc.append(z3.And(x >= lo, x <= hi))
+            s.pc.append(z3.Select(self.sset_member(s, sset.ref), x))
+            s.env[var['id']] = x
+
+        def cond(s):
+            return s.env[idx_key] < size0
+
+        def inc(s):
+            s.env[idx_key] = s.env[idx_key] + 1
+
+        return lc.apply(e, n, st, fr, cond, inc, body, True, bind, {'index_key': idx_key, 'container': sset})
 
     def range_for_vector(self, n, st, fr, vec, var, vt, body):
         e = self.e
